@@ -37,7 +37,17 @@ def g_project(draw):
     T = np.sqrt(ubm["variances"])[:, :, None] * t_scale * r.normal(0, 1, (C, F, R))
     sigma = ubm["variances"] * np.exp(r.uniform(-1, 1, (C, F)))
     items = [gen.fractional_stats(draw, C, F, ubm["means"], ubm["variances"], r=r, zero_prob=gen.choice(draw, [0.0, 0.3]))
-             for _ in range(gen.integer(draw, 1, 4))]
+             for _ in range(gen.choice(draw, [gen.integer(draw, 1, 4), gen.integer(draw, 1, 4), gen.integer(draw, 4, 7)]))]
+    if len(items) >= 4 and C >= 2 and gen.boolean(draw):
+        # statistics that differ in WHICH components received data, in an order such as A B B A (anything that groups
+        # the items by that pattern has to put the results back in the order of the items)
+        pat = gen.choice(draw, [[0, 1, 1, 0], [0, 1, 0, 0], [0, 1, 2, 0], [1, 0, 0, 1, 2, 0]])
+        for i_, it in enumerate(items):
+            j_ = pat[i_ % len(pat)]
+            if j_ > 0:
+                for k_ in ("n", "sum_px", "sum_pxx"):
+                    it[k_] = np.array(it[k_], dtype=float)
+                    it[k_][(j_ - 1) % C] = 0.0
     c = {"ubm": ubm, "T": T, "sigma": sigma, "items": items, "stats_layout": gen.choice(draw, ["C", "C", "F", "strided", "lazy"])}
     # the machine's training floor: default, or a value above some / all of the covariances it currently holds
     c["variance_floor"] = float(gen.choice(draw, [1e-10, 1e-10, float(np.median(sigma)), 10.0 * float(sigma.max())]))
@@ -82,7 +92,9 @@ def c_project(ctx, case):
         res = L @ got - b
         ctx.check(np.abs(res).max() <= 1e-8 * (np.abs(b).max() + np.abs(L).max() * sc + 1e-300),
                   "posterior normal equations not satisfied (residual %.3g)" % np.abs(res).max(), "residual")
-        ctx.close(np.asarray(o, float), got, "transform item == project", rtol=0, atol=0)
+        # transform is specified through project's result (the posterior mean), not through its arithmetic: equal up to
+        # rounding, not necessarily bit for bit
+        ctx.close(np.asarray(o, float), got, "transform item == project", rtol=1e-10, atol=1e-12 * (float(np.abs(got).max()) + 1e-300))
     # the machine must follow later assignments of T / sigma (no stale projection matrices)
     T2 = np.array(case["T"]) * 1.7 + 0.1 * np.sqrt(p["variances"])[:, :, None]
     sig2 = np.array(case["sigma"]) * 0.4
